@@ -164,6 +164,7 @@ def run_schedule(impl, actors_steps, strategy, line=False, dims=None, core_kw=No
         spy.actor = s.actor_id
         sim = simdev.SimDevice(rng=random.Random(5), maxdata=dims["maxdata"], remote_ids=dims["remote"])
         sim.wrte_delay = float(dims.get("pace", 0.0) or 0.0)
+        sim.early_close = bool(dims.get("early_close", False))
         sess = session.Session(impl, sim=sim, checked_locks=False, frag=dims["frag"], empty_rate=dims["empty_rate"], timeouts_cost_time=False, **dict({"budget": 200000}, **(core_kw or {})))
         out = sess.call("connect")
         assert out.ok, out
@@ -537,6 +538,7 @@ def run_case(case):
         nact = rng.choice([2, 2, 3])
         steps = []
         k = 0
+        with_trailer = False
         for a in range(nact):
             mine = []
             for _ in range(rng.choice([1, 1, 2])):
@@ -545,6 +547,7 @@ def run_case(case):
             if (a + k + len(case["seed"])) % 4 == 0:
                 mine.append(POOL_EXTRA[0](k))        # a listing after whose DONE the device says more before it closes
                 k += 1
+                with_trailer = True
             steps.append(mine)
         force_lp = 0.0
         if rng.random() < 0.12:
@@ -560,6 +563,8 @@ def run_case(case):
             ckw = None
         dims = {"maxdata": rng.choice([4096, 8192, 65536]), "remote": rng.choice(gen.REMOTE_REGIMES), "id_start": rng.choice(gen.ID_STARTS), "frag": rng.choice(["whole", "minus1"]),
                 "empty_rate": rng.choice([0.0, 0.1]), "noise": []}
+        if with_trailer:
+            dims["early_close"] = True        # the device closes right behind its last WRTE (nobody will acknowledge what it says after DONE)
         if ckw is None and case["impl"] == "sync" and rng.random() < 0.06:
             # one actor closes, another closes and connects again, a third starts an operation once that connect() has returned
             steps = [[{"op": "close-only"}], [{"op": "reconnect"}], [{"op": "gate"}, sh("late", 3)], [{"op": "gate"}, sh("late2", 3)]][:rng.choice([3, 4, 4])]
